@@ -95,29 +95,9 @@ from btcsim.seams.rng import SimRng
 P5, P19 = "C05", "C19"
 CPU_BUDGET_S = 10.0
 
-# PENDING-FINDING: genuine divergences on the pinned tree, reported to the coordinator
-PENDING: set[str] = {
-    "PsbtIn.from_dict/taproot-derivs",  # finding A: from_dict decodes taproot_hd_key_paths with the bip32_derivs helper -> TypeError
-    "Psbt.from_dict/taproot-derivs",  # the same, reached through Psbt.from_dict
-    "PsbtIn.serialize/sighash-zero",  # finding B: PSBT_IN_SIGHASH_TYPE = 0 is parsed and not written back
-    "Psbt.serialize/version-zero",  # finding B': an explicit PSBT_GLOBAL_VERSION = 0 is parsed and not written back
-    "PsbtIn.serialize/empty-value",  # finding B'': a known-type pair with an empty value is parsed and not written back
-    "PsbtOut.serialize/empty-value",
-    "PsbtOut.serialize/keydata-06",  # finding D: PSBT_OUT_TAP_TREE written with key data is parsed, the key data is not written back
-    "Psbt.serialize/keydata-fb",  # finding D': a second PSBT_GLOBAL_VERSION-typed key (with key data) is parsed and not written back
-    # finding E: from_dict handed JSON values of the wrong type leaves with bare TypeError / AttributeError / IndexError / KeyError
-    "TxOut.from_dict/json-network",  # `network`: [] -> "unhashable type" out of ScriptPubKey.assert_valid
-    "Tx.from_dict/json-network",
-    "Block.from_dict/json-network",
-    "Psbt.from_dict/json-edit",  # the psbt maps: decode_* helpers and assert_valid read the JSON values unguarded
-    "PsbtIn.from_dict/json-edit",
-    "PsbtOut.from_dict/json-edit",
-    "Psbt.serialize/json-edit",  # ... and some (leaf version None / -1, output_index 1.5) pass from_dict and break serialize
-    "PsbtIn.serialize/json-edit",
-    "PsbtOut.serialize/json-edit",
-    "var_int.parse/trailing-octets",  # finding C: octets after a whole compact size are ignored
-    "var_bytes.parse/trailing-octets",
-}
+# Divergences of the pinned tree that are recorded rather than repaired live in /verif/known_findings.json,
+# keyed by (property, site): ctx.check counts them, the runner announces them, the run goes on.
+PENDING: set[str] = set()
 
 
 class _Hang(BaseException):
